@@ -3,8 +3,8 @@
 cd /verif
 . ./env.sh
 ID=$1; shift
-TIER=${VERIF_TIER:-quick}
-while [ $# -gt 0 ]; do case "$1" in --tier) TIER=$2; shift 2;; --tier=*) TIER=${1#--tier=}; shift;; *) shift;; esac; done
+TIER=${VERIF_TIER:-quick}; EXTRA=()
+while [ $# -gt 0 ]; do case "$1" in --tier) TIER=$2; shift 2;; --tier=*) TIER=${1#--tier=}; shift;; *) EXTRA+=("$1"); shift;; esac; done
 export VERIF_TIER=$TIER
 case "$ID" in
   C01|C03|C04|C05|C06|C08|C20)
@@ -24,7 +24,7 @@ case "$ID" in
     rm -f $B/alt.$$.*
     cd /verif
     export VERIF_TREE_HASH=$(scripts/treehash.sh)
-    $B/seq-$lid.$$ --tier $TIER "$@"; rc=$?
+    $B/seq-$lid.$$ --tier $TIER "${EXTRA[@]}"; rc=$?
     rm -f $B/seq-$lid.$$
     exit $rc ;;
 esac
